@@ -198,7 +198,7 @@ theorem getType_witnessed : ∀ v : Val, v.wf = true → witnessed false [v] (ge
         rw [← hk]
         have hne : kvs ≠ [] := by rw [hk]; simp
         have hgt : getType k (.dict kvs) =
-            (if kvs.all (fun kv => kv.1.strKey?.isSome) && decide (kvs.length ≤ k) then .td (getFields k kvs) []
+            (if kvs.all (fun kv => kv.1.tdKeyOk) && decide (kvs.length ≤ k) then .td (getFields k kvs) []
              else .dict (shrink k (getKeyTypes k kvs)) (shrink k (getValTypes k kvs))) := by
           rw [hk]; simp only [getType]
         rw [hgt]
@@ -209,7 +209,7 @@ theorem getType_witnessed : ∀ v : Val, v.wf = true → witnessed false [v] (ge
             Bool.true_and, witnessedOpt, Bool.and_true]
           rw [witnessedReq_iff]
           intro kt hkt
-          obtain ⟨b, hb, ht⟩ := getFields_mem k kvs hcond.1 kt hkt
+          obtain ⟨b, hb, ht⟩ := getFields_mem k kvs (all_tdKeyOk_strKey kvs hcond.1) kt hkt
           constructor
           · simp only [List.all_cons, List.all_nil, Bool.and_true]
             exact (hasKey_iff kt.1 kvs).mpr ⟨_, hb, rfl⟩
